@@ -77,9 +77,18 @@ def work(seed, props, tier, matrix, mpath):
             other = [l[:300] for l in txt.splitlines() if re.match(r'^(INCONCLUSIVE|SUSPECT)', l)]
             # keep the replay files of reported violations next to the seed for later inspection
             with lock:
-                matrix.setdefault(seed, {}).setdefault(tier, {})[p] = {'rc': o.returncode, 'violations': vio[:3], 'other': other[:3],
-                                                                       'wall_s': round(time.time() - t, 1)}
-                json.dump(matrix, open(mpath, 'w'), indent=1, sort_keys=True)
+                # other matrix runs may have written meanwhile: merge into the file's current content
+                try:
+                    cur = json.load(open(mpath))
+                except Exception:
+                    cur = {}
+                cur.setdefault(seed, {}).setdefault(tier, {})[p] = {'rc': o.returncode, 'violations': vio[:3], 'other': other[:3],
+                                                                    'wall_s': round(time.time() - t, 1)}
+                matrix.clear()
+                matrix.update(cur)
+                tmp = mpath + '.tmp%d' % os.getpid()
+                json.dump(matrix, open(tmp, 'w'), indent=1, sort_keys=True)
+                os.replace(tmp, mpath)
             print('%s vs %s [%s]: rc=%d %.0fs %s' % (seed, p, tier, o.returncode, time.time() - t, (vio or other or [''])[0][:200]), flush=True)
             lp = os.path.join(ROOT, 'logs')
             os.makedirs(lp, exist_ok=True)
@@ -136,7 +145,6 @@ def main():
         time.sleep(0.2)
     for th in ths:
         th.join()
-    json.dump(matrix, open(mpath, 'w'), indent=1, sort_keys=True)
 
 
 if __name__ == '__main__':
